@@ -254,3 +254,64 @@ package generator
 //@ loop 1 invariant vs_all(func(i int) bool { return 0 <= i && i < len(security) ==> vs_schemeOK(securitySchemes, security[i]) && vs_visited(1, security[i].ID) })
 //@ loop 1 invariant @C07 vs_all(func(i int) bool { return vs_all(func(j int) bool { return 0 <= i && i < j && j < len(security) ==> security[i].ID != security[j].ID }) })
 //@ loop 1 invariant @C07 vs_all(func(k string) bool { return vs_visited(1, k) ==> vs_any(func(i int) bool { return 0 <= i && i < len(security) && security[i].ID == k }) })
+
+// ---- C07: map -> sequence conversions are independent of the map's iteration order ----
+// (a strictly ordered sequence over a determined key set is unique)
+
+//@ func sortedResponses
+//@ props C07
+//@ ensures vs_all(func(i int) bool { return 0 <= i && i < len(result) ==> result[i].Code > 0 && vs_has(input, result[i].Code) && vs_eq(result[i].Response, input[result[i].Code]) })
+//@ ensures vs_all(func(i int) bool { return vs_all(func(j int) bool { return 0 <= i && i < j && j < len(result) ==> result[i].Code < result[j].Code }) })
+//@ ensures vs_all(func(k int) bool { return vs_has(input, k) && k > 0 ==> vs_any(func(i int) bool { return 0 <= i && i < len(result) && result[i].Code == k }) })
+//@ loop 1 invariant vs_all(func(i int) bool { return 0 <= i && i < len(res) ==> res[i].Code > 0 && vs_has(input, res[i].Code) && vs_eq(res[i].Response, input[res[i].Code]) && vs_visited(1, res[i].Code) })
+//@ loop 1 invariant vs_all(func(i int) bool { return vs_all(func(j int) bool { return 0 <= i && i < j && j < len(res) ==> res[i].Code != res[j].Code }) })
+//@ loop 1 invariant vs_all(func(k int) bool { return vs_visited(1, k) && k > 0 ==> vs_any(func(i int) bool { return 0 <= i && i < len(res) && res[i].Code == k }) })
+
+//@ func hasFormatValidation
+//@ props C02 C07
+//@ safety
+//@ modifies nothing
+
+//@ func shallowValidationLookup
+//@ props C02 C07
+//@ safety
+//@ modifies nothing
+//@ ensures sch.IsArray && sch.HasValidations ==> result
+//@ ensures !(sch.IsArray && sch.HasValidations) && (sch.IsStream || sch.IsInterface) ==> !result
+//@ ensures !sch.IsStream && !sch.IsInterface && sch.Required ==> result
+
+//@ func gatherExtraSchemas
+//@ props C07
+//@ ensures len(extras) == len(vs_callArg[[]string]("Strings", 0))
+//@ loop 1 invariant vs_all(func(i int) bool { return 0 <= i && i < len(extraKeys) ==> vs_has(extraMap, extraKeys[i]) && vs_visited(1, extraKeys[i]) })
+//@ loop 1 invariant vs_all(func(i int) bool { return vs_all(func(j int) bool { return 0 <= i && i < j && j < len(extraKeys) ==> extraKeys[i] != extraKeys[j] }) })
+//@ loop 1 invariant vs_all(func(k string) bool { return vs_visited(1, k) ==> vs_any(func(i int) bool { return 0 <= i && i < len(extraKeys) && extraKeys[i] == k }) })
+//@ loop 2 invariant len(extras) == vs_done(2)
+//@ loop 2 invariant vs_all(func(i int) bool { return vs_all(func(j int) bool { return 0 <= i && i < j && j < len(extraKeys) ==> extraKeys[i] < extraKeys[j] }) })
+//@ loop 2 invariant vs_all(func(k string) bool { return vs_has(extraMap, k) ==> vs_any(func(i int) bool { return 0 <= i && i < len(extraKeys) && extraKeys[i] == k }) })
+//@ loop 2 invariant vs_all(func(i int) bool { return 0 <= i && i < len(extraKeys) ==> vs_has(extraMap, extraKeys[i]) })
+//@ loop 2 step len(extras) == old(len(extras))+1 && extras[len(extras)-1].Name == extraMap[k].Name && extras[len(extras)-1].GoType == extraMap[k].GoType
+
+//@ func concatUnique
+//@ props C07
+//@ modifies nothing
+//@ ensures vs_fresh(result)
+//@ ensures len(collections) == 2 ==> vs_all(func(s string) bool { return vs_any(func(i int) bool { return 0 <= i && i < len(result) && result[i] == s }) == (vs_any(func(e int) bool { return 0 <= e && e < len(collections[0]) && collections[0][e] == s }) || vs_any(func(e int) bool { return 0 <= e && e < len(collections[1]) && collections[1][e] == s })) })
+//@ ensures vs_all(func(i int) bool { return vs_all(func(j int) bool { return 0 <= i && i < j && j < len(result) ==> result[i] != result[j] }) })
+//@ ensures vs_all(func(s string) bool { return vs_any(func(i int) bool { return 0 <= i && i < len(result) && result[i] == s }) == vs_any(func(c int) bool { return 0 <= c && c < len(collections) && vs_any(func(e int) bool { return 0 <= e && e < len(collections[c]) && collections[c][e] == s }) }) })
+//@ loop 1 invariant resultSet != nil && vs_fresh(resultSet)
+//@ loop 1 invariant vs_all(func(s string) bool { return vs_has(resultSet, s) == vs_any(func(c int) bool { return 0 <= c && c < vs_done(1) && c < len(collections) && vs_any(func(e int) bool { return 0 <= e && e < len(collections[c]) && collections[c][e] == s }) }) })
+//@ loop 2 invariant resultSet != nil && vs_fresh(resultSet)
+//@ loop 2 invariant vs_all(func(s string) bool { return vs_has(resultSet, s) == (vs_any(func(c int) bool { return 0 <= c && c < vs_done(1)-1 && c < len(collections) && vs_any(func(e int) bool { return 0 <= e && e < len(collections[c]) && collections[c][e] == s }) }) || vs_any(func(e int) bool { return 0 <= e && e < vs_done(2) && e < len(c) && c[e] == s })) })
+//@ loop 3 invariant vs_fresh(result)
+//@ loop 3 invariant vs_all(func(i int) bool { return 0 <= i && i < len(result) ==> vs_has(resultSet, result[i]) && vs_visited(1, result[i]) })
+//@ loop 3 invariant vs_all(func(i int) bool { return vs_all(func(j int) bool { return 0 <= i && i < j && j < len(result) ==> result[i] != result[j] }) })
+//@ loop 3 invariant vs_all(func(k string) bool { return vs_visited(1, k) ==> vs_any(func(i int) bool { return 0 <= i && i < len(result) && result[i] == k }) })
+
+//@ func gatherURISchemes
+//@ props C07
+//@ requires swsp != nil
+//@ ensures vs_all(func(i int) bool { return vs_all(func(j int) bool { return 0 <= i && i < j && j < len(result0) ==> result0[i] < result0[j] }) })
+//@ ensures vs_all(func(i int) bool { return 0 <= i && i < len(result0) ==> vs_any(func(e int) bool { return 0 <= e && e < len(swsp.Schemes) && swsp.Schemes[e] == result0[i] }) || vs_any(func(e int) bool { return 0 <= e && e < len(operation.Schemes) && operation.Schemes[e] == result0[i] }) })
+//@ ensures vs_all(func(e int) bool { return 0 <= e && e < len(swsp.Schemes) ==> vs_any(func(i int) bool { return 0 <= i && i < len(result0) && result0[i] == swsp.Schemes[e] }) })
+//@ ensures vs_all(func(i int) bool { return vs_all(func(j int) bool { return 0 <= i && i < j && j < len(result1) ==> result1[i] < result1[j] }) })
